@@ -41,6 +41,14 @@ var spansHelpers = map[string][2]string{
 	"Ident.Implicit": {"{ o := x.Obj return o != nil && o.Kind >= implicitBase }", "Implicit"},
 }
 
+// package-level helpers whose result length may be added: len(helper(x.G)) -> addLen G.
+// The value of a token.Token field G is, for the model, the length of the text the token
+// contributes in front of the node's literal text: its spelling for operators and keywords,
+// the prefix for c"..." / py"..." literal kinds, nothing for the other literal classes.
+var spansLenHelpers = map[string]string{
+	"litPrefix": "{ switch kind { case token.CSTRING: return \"c\" case token.PYSTRING: return \"py\" } return \"\" }",
+}
+
 type spanTr struct {
 	p      *astPkg
 	kind   string
@@ -249,9 +257,16 @@ func (t *spanTr) pexpr(e ast.Expr) (string, error) {
 		}
 		if c, ok := y.(*ast.CallExpr); ok && wIsIdent(c.Fun, "len") && len(c.Args) == 1 {
 			arg := c.Args[0]
-			if sc, ok := arg.(*ast.CallExpr); ok { // x.G.String()
+			if sc, ok := arg.(*ast.CallExpr); ok { // x.G.String()  |  helper(x.G)
 				if ss, ok := sc.Fun.(*ast.SelectorExpr); ok && ss.Sel.Name == "String" && len(sc.Args) == 0 {
 					arg = ss.X
+				} else if id, ok := sc.Fun.(*ast.Ident); ok && len(sc.Args) == 1 {
+					want, known := spansLenHelpers[id.Name]
+					fd := t.p.funcs[id.Name]
+					if !known || fd == nil || wExprStr(t.fset, fd.Body) != want {
+						return "", broken("%s: helper %s unknown or changed", t.kind, id.Name)
+					}
+					arg = sc.Args[0]
 				}
 			}
 			if g, ok := t.recvField(arg); ok {
